@@ -1,1 +1,197 @@
-/-! Property theorems for C18 (not built yet). -/
+import Cellml.C18.Model
+import Cellml.C18.InferClass
+
+/-! C18 — every number in every equation keeps a real unit, through every manipulation.
+
+    `AllUnits s`: every atom (quantity or variable) of every equation of `s` carries a unit of the model's own store.
+    Shown for the loaded model, preserved by every operation, hence true after every history — for user-built equations
+    under the documented contract of `add_equation` (`Step.contract`), which is automatic for every library operation.
+    The code before commit 50d6d1a (`Variant.today`) is kept in the model with its proved counterexample. -/
+
+namespace Cellml.Props.C18
+open _root_.C18
+
+/-- every atom of every equation has a unit of the model's store -/
+def AllUnits (s : MState) : Prop := ∀ e ∈ s.eqs, ∀ i ∈ e, s.pool[i]? = some (.ofStore s.storeId)
+
+instance (s : MState) : Decidable (AllUnits s) := by unfold AllUnits; infer_instance
+
+/-- every object the model ever showed has a unit of the store (stronger: also objects no equation mentions now) -/
+def PoolOk (s : MState) : Prop := ∀ r ∈ s.pool, r = .ofStore s.storeId
+
+/-- equations mention existing objects only -/
+def Scoped (s : MState) : Prop := ∀ e ∈ s.eqs, ∀ i ∈ e, i < s.pool.length
+
+structure Inv (s : MState) : Prop where
+  pool : PoolOk s
+  inScope : Scoped s
+
+theorem allunits_of_inv {s : MState} (h : Inv s) : AllUnits s := by
+  intro e he i hi
+  have hlt := h.inScope e he i hi
+  rw [List.getElem?_eq_getElem hlt]
+  exact congrArg some (h.pool _ (List.getElem_mem hlt))
+
+/-- the factory, when it returns, returns a quantity with a unit of the store — whatever it was given -/
+theorem createQuantity_ofStore {sid : Nat} {a : UnitArg} {r : UnitRef} (h : createQuantity sid a = .ok r) :
+    r = .ofStore sid := by
+  cases a <;> simp [createQuantity] at h <;> exact h.symm
+
+/-- … and it refuses what it cannot tie to the store: a unit of another registry, an unknown name, `None` -/
+theorem createQuantity_refuses (sid reg : Nat) :
+    createQuantity sid (.foreignUnit reg) = .error .keyError ∧ createQuantity sid .unknownName = .error .keyError ∧
+    createQuantity sid .noneArg = .error .keyError := ⟨rfl, rfl, rfl⟩
+
+/-- after the repair every creation site hangs a unit of the store on what it creates -/
+theorem creatorRef_fixed {sid : Nat} {c : Creator} (h : c.obeys sid = true) : creatorRef .fixed sid c = .ofStore sid := by
+  cases c <;> simp_all [creatorRef, Creator.obeys]
+
+/-- a library operation cannot reach the caller's `raw` site: for it the contract is automatic -/
+theorem legal_obeys {op : Op} {c : Creator} (sid : Nat) (hop : op ≠ .userEdit) (h : legal op c = true) :
+    c.obeys sid = true := by
+  cases c <;> simp_all [Creator.obeys]
+  cases op <;> simp_all [legal]
+
+theorem contract_automatic {s : MState} {st : Step} (hop : st.op ≠ .userEdit) (hok : st.ok s = true) :
+    st.contract s.storeId = true := by
+  simp only [Step.ok, Bool.and_eq_true, List.all_eq_true] at hok
+  simp only [Step.contract, List.all_eq_true]
+  exact fun c hc => legal_obeys _ hop (hok.1 c hc)
+
+@[simp] theorem step_storeId (v : Variant) (s : MState) (st : Step) : (step v s st).storeId = s.storeId := by
+  unfold step; split <;> rfl
+
+theorem inv_init (sid : Nat) : Inv (init sid) := ⟨by intro r hr; simp [init] at hr, by intro e he; simp [init] at he⟩
+
+/-- the step theorem: every operation, under the contract for what the caller supplies, preserves the invariant -/
+theorem inv_step {s : MState} {st : Step} (h : Inv s) (hc : st.contract s.storeId = true) : Inv (step .fixed s st) := by
+  unfold step
+  split
+  · rename_i hok
+    simp only [Step.ok, Bool.and_eq_true, List.all_eq_true] at hok
+    simp only [Step.contract, List.all_eq_true] at hc
+    refine ⟨?_, ?_⟩
+    · intro r hr
+      simp only [List.mem_append, List.mem_map] at hr
+      rcases hr with hr | ⟨c, hcm, rfl⟩
+      · exact h.pool r hr
+      · exact creatorRef_fixed (hc c hcm)
+    · intro e he i hi
+      have := hok.2 e he i hi
+      simp only [decide_eq_true_eq] at this
+      simpa [List.length_append, List.length_map] using this
+  · exact h
+
+/-- every public operation keeps `AllUnits` (the invariant carries it) -/
+theorem allunits_step {s : MState} {st : Step} (h : Inv s) (hc : st.contract s.storeId = true) :
+    AllUnits (step .fixed s st) := allunits_of_inv (inv_step h hc)
+
+/-- library operations need no hypothesis at all: `convert_variable`, `remove_fixable_singularities`, the unit-fix
+    write-back, `remove_equation`, the loader, an operation on another model -/
+theorem inv_step_library {s : MState} {st : Step} (h : Inv s) (hop : st.op ≠ .userEdit) : Inv (step .fixed s st) := by
+  by_cases hok : st.ok s = true
+  · exact inv_step h (contract_automatic hop hok)
+  · unfold step; simp [hok]; exact h
+
+theorem inv_load (sid : Nat) (creates : List Creator) (eqs : List (List Nat)) : Inv (load .fixed sid creates eqs) :=
+  inv_step_library (inv_init sid) (by simp)
+
+/-- the loaded model: cn literals, connection conversion factors, `transform_constants`, variables -/
+theorem allunits_load (sid : Nat) (creates : List Creator) (eqs : List (List Nat)) :
+    AllUnits (load .fixed sid creates eqs) := allunits_of_inv (inv_load sid creates eqs)
+
+theorem inv_run {s : MState} (steps : List Step) (h : Inv s)
+    (hc : ∀ st ∈ steps, st.op = .userEdit → st.contract s.storeId = true) : Inv (run .fixed s steps) := by
+  induction steps generalizing s with
+  | nil => exact h
+  | cons st rest ih =>
+      simp only [run, List.foldl_cons]
+      have hst : Inv (step .fixed s st) := by
+        by_cases hop : st.op = .userEdit
+        · exact inv_step h (hc st (List.mem_cons_self) hop)
+        · exact inv_step_library h hop
+      exact ih hst (fun st' hm hop => by simpa using hc st' (List.mem_cons_of_mem _ hm) hop)
+
+/-- the property: after loading and ANY sequence of operations (user edits obeying the contract of `add_equation`),
+    every atom of every equation carries a unit of the model's store -/
+theorem allunits_reachable (sid : Nat) (creates : List Creator) (eqs : List (List Nat)) (steps : List Step)
+    (hc : ∀ st ∈ steps, st.op = .userEdit → st.contract sid = true) :
+    AllUnits (run .fixed (load .fixed sid creates eqs) steps) :=
+  allunits_of_inv (inv_run steps (inv_load sid creates eqs) (by simpa [load, init] using hc))
+
+/-- several models in one process: an operation on one of them leaves the invariant of all -/
+theorem inv_world {w : World} (who : Nat) (st : Step) (h : ∀ s ∈ w, Inv s)
+    (hc : ∀ s, w[who]? = some s → st.contract s.storeId = true) : ∀ s ∈ wstep .fixed w who st, Inv s := by
+  unfold wstep
+  cases hw : w[who]? with
+  | none => simpa using h
+  | some s0 =>
+      intro s hs
+      rcases List.mem_or_eq_of_mem_set hs with hs | rfl
+      · exact h s hs
+      · exact inv_step (h s0 (List.mem_of_getElem? hw)) (hc s0 hw)
+
+/-- what `convert_variable` is said to create, it has a site for -/
+theorem convertCreates_legal (cf : CF) (d : Dir) (r : Role) (n : Nat) :
+    ∀ c ∈ convertCreates cf d r n, legal (.convertVariable cf d r n) c = true := by
+  intro c hc
+  cases cf <;> cases d <;> cases r <;> simp [convertCreates, List.mem_replicate] at hc <;>
+    first
+    | (rcases hc with rfl | rfl | rfl <;> simp [legal])
+    | (rcases hc with rfl | rfl | ⟨_, rfl⟩ <;> simp [legal])
+    | (rcases hc with rfl | rfl <;> simp [legal])
+
+/-! ### the code before commit 50d6d1a, and the contract -/
+
+/-- a loaded model `x = 3·U/(exp U − 1)`: variables `x`, `V`, three literals -/
+def demo : MState := load .fixed 0 [.loaderVariable, .loaderVariable, .cnLiteral, .cnLiteral, .cnLiteral] [[0, 2, 3, 1, 4]]
+
+/-- singularity removal replaces the equation; the new one mentions two range bounds and `ONE` -/
+def demoSing : Step :=
+  { op := .removeSingularities, creates := [.singQuantity, .singQuantity, .singQuantity],
+    eqs := [.atoms [0, 5, 1, 6, 2, 3, 4, 7]] }
+
+/-- proved counterexample for the code before the repair: singularity removal plants bare strings -/
+theorem today_plants_strings : AllUnits demo ∧ ¬ AllUnits (step .today demo demoSing) := by decide
+
+/-- the same step after the repair -/
+theorem fixed_plants_units : AllUnits (step .fixed demo demoSing) := by decide
+
+/-- the contract of `add_equation` is needed: a directly constructed quantity breaks the property -/
+theorem contract_needed :
+    AllUnits demo ∧ ¬ AllUnits (step .fixed demo { op := .userEdit, creates := [.newVariable, .raw .bareString],
+                                                   eqs := [.keep 0, .atoms [5, 6, 0]] }) := by decide
+
+/-! ### non-vacuity -/
+
+example : Inv demo := inv_load _ _ _
+example : demo.pool.length = 5 ∧ demo.eqs = [[0, 2, 3, 1, 4]] := by decide
+example : (step .fixed demo demoSing).pool.length = 8 := by decide
+/-- a history load → convert_variable (INPUT, state) → singularity removal → user equation → unit-fix write-back -/
+def demoHistory : List Step :=
+  [ { op := .convertVariable .number .input .state 1, creates := convertCreates .number .input .state 1,
+      eqs := [.keep 0, .atoms [6, 7, 5], .atoms [1, 6, 5]] },
+    { op := .removeSingularities, creates := [.singQuantity, .singQuantity], eqs := [.atoms [0, 2, 3, 1, 4, 8, 9], .keep 1, .keep 2] },
+    { op := .userEdit, creates := [.newVariable, .factoryQuantity], eqs := [.keep 0, .keep 1, .keep 2, .atoms [10, 11, 1]] },
+    { op := .fixWriteBack, creates := [.maybeConvert], eqs := [.keep 0, .keep 1, .keep 2, .atoms [10, 12, 11, 1]] } ]
+example : ∀ st ∈ demoHistory, st.op = .userEdit → st.contract 0 = true := by decide
+example : (run .fixed demo demoHistory).pool.length = 13 ∧ (run .fixed demo demoHistory).eqs.length = 4 := by decide
+example : AllUnits (run .fixed demo demoHistory) := allunits_reachable 0 _ _ demoHistory (by decide)
+example : ¬ AllUnits (run .today demo demoHistory) := by decide
+
+/-! ### inference answers with a unit or a `UnitError` (against the C04 model of `UnitCalculator.traverse`) -/
+
+/-- On expressions of the common expression type — whose quantity and variable atoms carry unit containers of the store
+    by construction; a quantity with a string unit is not representable as `qty` — `traverse` returns a unit, a
+    `UnitError`, or one of the three magnitude-arithmetic exceptions recorded as known findings of C04. -/
+theorem infer_total_class (reg : Registry) (Γ : VarEnv) (e : E) (w : String)
+    (h : Infer.traverse reg Γ e = .error (.otherException w)) :
+    w = "ZeroDivisionError" ∨ w = "OverflowError" ∨ w = "TypeError" :=
+  InferClass.traverse_class reg Γ e w h
+
+/-- … and without powers, derivatives, floor / ceiling and exp there is no such exception at all -/
+theorem infer_total_class_strict (reg : Registry) (Γ : VarEnv) (e : E) (hm : InferClass.noMagnitudeOps e = true)
+    (w : String) : Infer.traverse reg Γ e ≠ .error (.otherException w) :=
+  InferClass.traverse_strict reg Γ e hm w
+
+end Cellml.Props.C18
